@@ -23,6 +23,7 @@ META = {
         "construction. Not decided: exactness on the whole grid; text round-trip; flag8 bit order (values)."
     ),
 }
+META["explanation"] += ' C04.R3 also: the DST flag is or-ed into the seconds octet on every path through hex_from_dtm (flow-sensitive column tracking) and the decoder masks it.'
 
 H = "ramses_tx.helpers"
 A = "ramses_tx.address"
